@@ -172,8 +172,10 @@ class ModelRegistry:
 
         replaces = []
         replaces_ids = set()
+        # Iteration order of a set of models depends on the string hash seed, so merge each group in registration order
+        positions = {id(model): i for i, model in enumerate(self.models)}
         for group in groups:
-            model_meta = self._merge(generator, *group)
+            model_meta = self._merge(generator, *sorted(group, key=lambda model: positions[id(model)]))
             generator.optimize_type(model_meta)
             replaces_ids.add(model_meta.index)
             replaces.append((model_meta, group))
